@@ -349,9 +349,46 @@ func c06Deep(c *mon.Ctx, idx int) {
 	c.Count("deep_nesting_cases")
 }
 
+// c06NameTwins: pairs of different identifiers of equal length with equal
+// 32-bit FNV-1a / FNV-1 hashes (found by search). A binding named by one must
+// never capture the other, as a field or as another binding.
+var c06HashTwins = [][2]string{{"glbvs", "yacxa"}, {"khmtmq", "pcsump"}, {"idynzs", "ynegdn"}, {"xotmoz", "tejrrn"}, {"mkyxjm", "svreec"}}
+
+func c06NameTwins(c *mon.Ctx, idx int) {
+	tw := c06HashTwins[idx%len(c06HashTwins)]
+	a, b := tw[0], tw[1]
+	if (idx/len(c06HashTwins))%2 == 1 {
+		a, b = b, a
+	}
+	datum := map[string]interface{}{"items": []interface{}{map[string]interface{}{"k": 1}, map[string]interface{}{"k": 2}}, a: 7, b: 8, "m": map[string]interface{}{a: 1, b: 2}}
+	rep := func(t string) string { return strings.ReplaceAll(strings.ReplaceAll(t, "AAA", a), "BBB", b) }
+	cases := []c06Case{
+		{rep(`any items as AAA { BBB == 8 }`), "T"}, {rep(`all items as AAA { BBB == 8 and AAA.k != 8 }`), "T"}, {rep(`any items as AAA { BBB.k == 1 }`), "E"},
+		{rep(`any items as AAA { any items as BBB { AAA.k == 1 and BBB.k == 2 } }`), "T"}, {rep(`any items as AAA { all items as BBB { AAA.k == 1 or BBB.k == 9 } }`), "T"},
+		{rep(`any items as i, AAA { BBB == 8 and AAA.k == 2 and i == 1 }`), "T"}, {rep(`any m as AAA, BBB { AAA == "BBB" and BBB == 2 }`), "T"}, {rep(`any m as AAA { AAA == "BBB" and BBB == 8 }`), "T"},
+		{rep(`(any items as AAA { AAA.k == 1 }) and AAA == 7 and BBB == 8`), "T"},
+	}
+	for _, cs := range cases {
+		ev, err, pan, _ := createEval(cs.expr)
+		c.Evals(1)
+		if pan != "" || err != nil {
+			c.Violation("C06 fixed-case-rejected", "a quantifier expression was rejected", map[string]any{"expression": cs.expr, "error": fmt.Sprint(err) + pan})
+			return
+		}
+		if o := evaluate(ev, datum); o.Class3() != cs.want {
+			c.Violation(fmt.Sprintf("C06 name-twins got=%s want=%s", o.Class3(), cs.want), "a binding captured (or was shadowed by) a DIFFERENT name of the same length and 32-bit hash", map[string]any{"expression": cs.expr, "names": []string{a, b}, "observed": o.String(), "expected": cs.want})
+			return
+		}
+	}
+	c.Count("name_twin_cases")
+}
+
 func c06Fixed(c *mon.Ctx, idx int, r interface{ Intn(int) int }) {
 	if idx%100 == 37 {
 		c06Deep(c, idx/100)
+	}
+	if idx%100 == 38 {
+		c06NameTwins(c, idx/100)
 	}
 	cs := c06Cases[idx%len(c06Cases)]
 	c.Evals(1)
@@ -375,7 +412,7 @@ func init() {
 		NumCases:    func(tier string) int { return tierN(tier, 6000, 300000) },
 		Run:         c06Run,
 		Required: func(tier string) []string {
-			l := []string{"unrolled_compared", "fixed_cases", "deep_nesting_cases", "nested_quantifier", "empty_list", "quant-outcome:T", "quant-outcome:F", "quant-outcome:E", "unrolled:T/n=3", "unrolled:F/n=3", "unrolled:E/n=2"}
+			l := []string{"unrolled_compared", "fixed_cases", "deep_nesting_cases", "name_twin_cases", "nested_quantifier", "empty_list", "quant-outcome:T", "quant-outcome:F", "quant-outcome:E", "unrolled:T/n=3", "unrolled:F/n=3", "unrolled:E/n=2"}
 			for m := 0; m < 4; m++ {
 				l = append(l, fmt.Sprintf("mode:%d/slice", m), fmt.Sprintf("mode:%d/map", m))
 			}
